@@ -67,6 +67,8 @@ type c05Setup struct {
 	other   []byte // same plaintexts under another shared secret
 	old     []byte // other plaintexts of the same lengths sealed under the same key 2^32 counters earlier
 	recv    hccrypto.Cryptographer
+	first   uint64 // the counter under which frame 0 of the stream was sealed
+	dir     string
 }
 
 func c05Build(cas c05Case) (*c05Setup, error) {
@@ -108,6 +110,7 @@ func c05Build(cas c05Case) (*c05Setup, error) {
 		refctl.Frames(rkey, &rctr, m)
 		refctl.Frames(okey, &octr, m)
 	}
+	s.first, s.dir = ctr, cas.Dir
 	for i, n := range cas.Lens {
 		msg := pat(n, byte(29*i+5))
 		base := len(s.stream)
@@ -221,6 +224,30 @@ func (s *c05Setup) apply(in []byte, f c05Fault, pristine bool) []byte {
 			}
 			return own(i)
 		})
+	case "forged-then-well-known-key":
+		// frame A is replaced by arbitrary bytes (it is rejected); what follows is sealed by the adversary under a key
+		// everybody knows — all zero bytes (B < 2), or the session keys of the all-zero shared secret (B ≥ 2) — with
+		// the counter the receiver expects next if the rejected frame did not count (B even) or did (B odd)
+		out = nil
+		for i := 0; i < f.A; i++ {
+			out = append(out, own(i)...)
+		}
+		fr := append([]byte{}, own(f.A)...)
+		for k := 2; k < len(fr); k++ {
+			fr[k] = byte(k*13 + 7)
+		}
+		out = append(out, fr...)
+		key := make([]byte, 32)
+		if f.B >= 2 {
+			a2c, c2a := refctl.SessionKeys(make([]byte, 32))
+			key = c2a
+			if s.dir != "acc" {
+				key = a2c
+			}
+		}
+		ctr := s.first + uint64(f.A) + uint64(f.B%2)
+		out = append(out, refctl.Frames(key, &ctr, []byte("PUT /characteristics HTTP/1.1 (forged after the rejected frame)"))...)
+		out = append(out, refctl.Frames(key, &ctr, []byte("and one more"))...)
 	case "insert-byte":
 		if f.A <= len(in) {
 			out = append(append(append([]byte{}, in[:f.A]...), byte(f.B)), in[f.A:]...)
@@ -588,6 +615,11 @@ func c05Singles(s *c05Setup, thorough bool) []c05Fault {
 		for i := 0; i <= nf; i++ {
 			fs = append(fs, c05Fault{Kind: "forged-empty-frame-inserted", A: i, B: 7})
 		}
+		for i := 0; i < nf; i++ {
+			for b := 0; b < 4; b++ {
+				fs = append(fs, c05Fault{Kind: "forged-then-well-known-key", A: i, B: b})
+			}
+		}
 		if len(s.old) == len(s.stream) {
 			for i := 0; i < nf; i++ {
 				fs = append(fs, c05Fault{Kind: "replay-2^32-earlier", A: i})
@@ -741,7 +773,7 @@ func init() {
 	fw.Register(&fw.Check{
 		ID:     "C05",
 		Level:  "fault_enumeration",
-		Rule:   "for 20 stream shapes (0–4 frames, message lengths around 1, 1023..1025, k·1024; frame counters starting at 0, 1, 300 and — preset through reflection — 2^32−1, 2^32, 2^32+5, 2^40, 2^63−1, 2^64−4) × both receiving directions × secrets: every single-bit flip of the whole ciphertext stream, truncation at every byte offset, every frame deletion, duplication at every position, every non-identity permutation, reflection of the receiver's own frames, same-index frames of a session with another secret, a frame the same sender sealed 2^32 counters earlier, forged frames (empty with an arbitrary tag — replacing a frame or inserted anywhere —, or arbitrary bytes of the original length), byte insertion/removal at frame edges; thorough adds all ordered pairs of faults from a reduced menu on the small shapes. Sender = reference framing, receiver = hc's real session (also while the receiving session encrypts outgoing messages between the reads that deliver the stream); for streams under 2200 bytes the same faults are also fed one level up through a real hap.Connection (released bytes, error, nothing released to a caller that keeps reading after the error; through Read — with 4096-byte reads and with net/http's alternation of 1-byte and 4096-byte reads — and through the exported DecryptedRead); frame-level faults also with a caller that keeps the readers Decrypt returns and reads them after the last call. distinct_nontrivial = distinct (fault kinds, error reported?) classes among faults that changed at least one byte Frame-level faults are also run with an adversary connection of the same accessory next to the attacked one, from the same host and another port, for IPv4, IPv6 and link-local IPv6 (zone) peer addresses: opened after the attacked connection got its keys, or receiving the diverted original bytes while the altered stream arrives; an unaltered stream next to such a neighbour is delivered completely. Plus, in a subprocess built with a scheduling point before EVERY statement of hc's packages (textual insertion through go build -overlay): every interleaving with at most 1 (thorough 2) preemptions of pairs of operations on disjoint objects — and, where the property is about served requests, of pairs of handlers on two verified connections of one accessory touching different characteristics — each side must observe exactly what it observes when the two run one after the other (module-level mutable state is what makes them differ).",
+		Rule:   "for 20 stream shapes (0–4 frames, message lengths around 1, 1023..1025, k·1024; frame counters starting at 0, 1, 300 and — preset through reflection — 2^32−1, 2^32, 2^32+5, 2^40, 2^63−1, 2^64−4) × both receiving directions × secrets: every single-bit flip of the whole ciphertext stream, truncation at every byte offset, every frame deletion, duplication at every position, every non-identity permutation, reflection of the receiver's own frames, same-index frames of a session with another secret, a frame the same sender sealed 2^32 counters earlier, forged frames (empty with an arbitrary tag — replacing a frame or inserted anywhere —, or arbitrary bytes of the original length; the latter also followed by frames the adversary sealed under a key everybody knows — all zero, or derived from the all-zero secret — with the counter the receiver expects next), byte insertion/removal at frame edges; thorough adds all ordered pairs of faults from a reduced menu on the small shapes. Sender = reference framing, receiver = hc's real session (also while the receiving session encrypts outgoing messages between the reads that deliver the stream); for streams under 2200 bytes the same faults are also fed one level up through a real hap.Connection (released bytes, error, nothing released to a caller that keeps reading after the error; through Read — with 4096-byte reads and with net/http's alternation of 1-byte and 4096-byte reads — and through the exported DecryptedRead); frame-level faults also with a caller that keeps the readers Decrypt returns and reads them after the last call. distinct_nontrivial = distinct (fault kinds, error reported?) classes among faults that changed at least one byte Frame-level faults are also run with an adversary connection of the same accessory next to the attacked one, from the same host and another port, for IPv4, IPv6 and link-local IPv6 (zone) peer addresses: opened after the attacked connection got its keys, or receiving the diverted original bytes while the altered stream arrives; an unaltered stream next to such a neighbour is delivered completely. Plus, in a subprocess built with a scheduling point before EVERY statement of hc's packages (textual insertion through go build -overlay): every interleaving with at most 1 (thorough 2) preemptions of pairs of operations on disjoint objects — and, where the property is about served requests, of pairs of handlers on two verified connections of one accessory touching different characteristics — each side must observe exactly what it observes when the two run one after the other (module-level mutable state is what makes them differ).",
 		Run:    c05Run,
 		Budget: func(string) time.Duration { return 25 * time.Minute },
 		Replay: func(c *fw.Ctx, raw json.RawMessage) {
